@@ -199,11 +199,55 @@ func c09Stress(t *testing.T, part string, stableNums, churnNums []uint64, search
 	}
 	idle := make([][]byte, len(reqs))
 	for i, r := range reqs {
-		out, err := c09Do(h, multi, r)
-		if err != nil {
-			t.Fatalf("idle %s: %v", r.Name, err)
+		// (also on the idle server an operation has to complete: watched, and a hang decided by state)
+		type ires struct {
+			out []byte
+			err error
 		}
-		idle[i] = out
+		ich := make(chan ires, 1)
+		go func() {
+			out, err := c09Do(h, multi, r)
+			ich <- ires{out, err}
+		}()
+		var ir ires
+		select {
+		case ir = <-ich:
+		case <-time.After(30 * time.Second):
+			buf := make([]byte, 8<<20)
+			buf = buf[:runtime.Stack(buf, true)]
+			blocked, other := 0, 0
+			sample := ""
+			for _, gtxt := range strings.Split(string(buf), "\n\n") {
+				if !(strings.Contains(gtxt, "yellowstone-faithful.(*MultiEpoch)") || strings.Contains(gtxt, "yellowstone-faithful.FirstSuccess") || strings.Contains(gtxt, "yellowstone-faithful.c09Do")) || strings.Contains(gtxt, "yellowstone-faithful.c09Stress(") {
+					continue
+				}
+				hdr := gtxt
+				if k := strings.Index(gtxt, "\n"); k > 0 {
+					hdr = gtxt[:k]
+				}
+				if c09BlockedRe.MatchString(hdr) || strings.Contains(gtxt, "sync.(*RWMutex)") {
+					blocked++
+					if sample == "" && strings.Contains(gtxt, "FirstSuccess") {
+						sample = gtxt
+					}
+				} else {
+					other++
+				}
+			}
+			if len(sample) > 2500 {
+				sample = sample[:2500]
+			}
+			if blocked > 0 && other == 0 {
+				rec.Violation("MultiEpoch/operations-never-complete", fmt.Sprintf("on the idle server (%d epochs loaded, epoch-search concurrency %d) request %s did not complete; all %d goroutines working on it wait on each other and none is runnable. One of them:\n%s", len(fxs), searchConc, r.Name, blocked, sample), r)
+			} else {
+				rec.Inconclusive(fmt.Sprintf("idle request %s did not return within the watchdog (%d goroutines blocked, %d runnable)", r.Name, blocked, other))
+			}
+			return
+		}
+		if ir.err != nil {
+			t.Fatalf("idle %s: %v", r.Name, ir.err)
+		}
+		idle[i] = ir.out
 	}
 	// the idle answers must be repeatable on the idle server, otherwise they are no oracle
 	for i, r := range reqs {
